@@ -20,9 +20,9 @@ type CConfig struct {
 	Relay       int      `json:"relay"`         // >0: another BitXHub (id 1357) with this many validators is registered as relay chain
 	NoFabsimCap bool     `json:"no_fabsim_cap"` // lift the per-run cap on proofs handed to the FabricSim validator (only used by the known-finding replay of the validator-pool wedge)
 	Profile     string   `json:"profile"`
-	Late        bool     `json:"late"`       // every chain has one more service ("sl") that is not registered in the prologue: "register" steps submit it during the run
+	Late        bool     `json:"late"`         // every chain has one more service ("sl") that is not registered in the prologue: "register" steps submit it during the run
 	SplitGroups bool     `json:"split_groups"` // one-to-many groups only from services of the first chain, one-to-one traffic only from the others (so that the two reference models never share a transaction id)
-	BigBlocks   bool     `json:"big_blocks"` // few cuts: most blocks are filled to the sequencer's limit
+	BigBlocks   bool     `json:"big_blocks"`   // few cuts: most blocks are filled to the sequencer's limit
 }
 
 // CStep is one symbolic workload step. Operands are resolved against the model at execution time
@@ -111,7 +111,7 @@ func Generate(prop string, r *sim.Rand, tier string) *sim.Plan {
 		cfg.Replicas = cfg.Replicas[:1]
 	}
 	switch prop {
-	case "C07", "C02", "C03", "C17":
+	case "C07", "C02", "C03", "C17", "C09", "C12":
 		cfg.Twin = true
 	}
 	if prop == "C03" || ((prop == "C01" || prop == "C07") && r.Chance(0.3)) || (prop == "C08" && r.Chance(0.5)) {
@@ -204,7 +204,11 @@ func (g *gen) relayIBTP() CStep {
 	for i := 0; i < k; i++ {
 		switch r.Weighted([]int{6, 1, 1}) {
 		case 0:
-			s.Signers = append(s.Signers, r.Intn(n))
+			if r.Chance(0.7) {
+				s.Signers = append(s.Signers, r.Intn(n))
+			} else {
+				s.Signers = append(s.Signers, r.Intn(14)) // registered or not, depending on the trust root in force
+			}
 		case 1:
 			s.Signers = append(s.Signers, 100+r.Intn(3)) // unregistered key
 		case 2:
@@ -364,6 +368,10 @@ func (g *gen) step(prop string) []CStep {
 		w := []int{8, 2, 4, 3, 0}
 		if g.cfg.Relay > 0 {
 			w[4] = 5
+			if r.Chance(0.04) {
+				// the other BitXHub's validator set is replaced through governance
+				return []CStep{CStep{Op: "relaytrust", N: r.Intn(4), A: r.Intn(5)}}
+			}
 		}
 		if g.cfg.BigBlocks {
 			w[2] = 1
